@@ -4,6 +4,6 @@ From Coq Require Import ExtrOcamlBasic.
 From Coq Require Import List ZArith NArith.
 From Coq.Strings Require Import Byte.
 From Muduo Require Import Base_Bytes C10_Model.
-Extraction "model.ml" C10_Model.step C10_Model.new_buf C10_Model.readable
+Extraction "model.ml" C10_Model.step_c C10_Model.new_buf C10_Model.readable
   C10_Model.readableBytes C10_Model.writableBytes C10_Model.prependableBytes C10_Model.readFd_capacity
   Base_Bytes.xbyte_of_N Base_Bytes.xN_of_byte Base_Bytes.xanchor.
